@@ -41,6 +41,7 @@ RS = ("from chempy import Reaction, Equilibrium\nfrom chempy.kinetics.rates impo
       "from chempy.kinetics._rates import *\nfrom chempy.util._expr import create_Piecewise, create_Poly, Constant, Symbol\n"
       "from chempy.thermodynamics.expressions import MassActionEq, GibbsEqConst\n"
       "rxn1 = Reaction({'A': 1}, {'B': 1})\nrxn2 = Reaction({'A': 1, 'B': 1}, {'C': 1})\nrxn3 = Reaction({'A': 2, 'B': 1}, {'C': 1})\n"
+      "rxn0 = Reaction({}, {'A': 1})\n"
       "R0 = Const(8.314472)\nKH0 = Const(2.083664399411865234375e10)\n"
       # sequences on the same objects: (value, value after the caller updates its own variables, caller's mapping untouched by the call)
       "def _twice(expr, v1, upd, **kw):\n"
@@ -103,10 +104,13 @@ CASES = [
     dict(name="rates_Eyring", targets=["chempy.kinetics.rates.Eyring:__call__", "chempy.kinetics.rates.EyringHS:__call__"], setup=RS,
          vars={"c0": POS, "c1": ANY, "conc0": POS, "T": TR, "dH": ANY, "dS": ANY, "R": POS, "kB": POS, "h": POS},
          plain="(Eyring([c0, c1, conc0])({'temperature': T}, backend=be, reaction=rxn1), Eyring([c0, c1, conc0])({'temperature': T}, backend=be, reaction=rxn2), "
+               "Eyring([c0, c1, conc0])({'temperature': T}, backend=be, reaction=rxn0), "
+               "EyringHS([dH, dS, conc0])({'temperature': T, 'molar_gas_constant': R, 'Boltzmann_constant': kB, 'Planck_constant': h}, backend=be, reaction=rxn0), "
                "Eyring([c0, c1, conc0])({'temperature': T}, backend=be, reaction=rxn3), "
                "EyringHS([dH, dS, conc0])({'temperature': T, 'molar_gas_constant': R, 'Boltzmann_constant': kB, 'Planck_constant': h}, backend=be, reaction=rxn2), "
                "EyringHS([dH, dS, conc0])({'temperature': T, 'molar_gas_constant': R, 'Boltzmann_constant': kB, 'Planck_constant': h}, backend=be, reaction=rxn3))",
-         formula="(c0*T*be.exp(-c1/T), c0*T*be.exp(-c1/T)/conc0, c0*T*be.exp(-c1/T)/conc0**2, kB/h*T*be.exp(-(dH - T*dS)/(R*T))/conc0, "
+         formula="(c0*T*be.exp(-c1/T), c0*T*be.exp(-c1/T)/conc0, c0*T*be.exp(-c1/T)*conc0, kB/h*T*be.exp(-(dH - T*dS)/(R*T))*conc0, "
+                 "c0*T*be.exp(-c1/T)/conc0**2, kB/h*T*be.exp(-(dH - T*dS)/(R*T))/conc0, "
                  "kB/h*T*be.exp(-(dH - T*dS)/(R*T))/conc0**2)"),
     dict(name="Radiolytic_Temp", targets=["chempy.kinetics.rates.mk_Radiolytic", "chempy.kinetics.rates.RampedTemp:__call__",
                                           "chempy.kinetics.rates.SinTemp:__call__"], setup=RS,
